@@ -6,8 +6,14 @@ from . import ref
 FALSE4 = (False,) * 4
 
 
+ABS_RNG = None      # set to a random.Random to sprinkle $ over references
+
+
 def R(key, home=None, qualify=False):
     s = key[0] if (qualify or (home is not None and key[0] != home)) else None
+    if ABS_RNG is not None:
+        return ('ref', s, key[1], key[2], ABS_RNG.random() < 0.2,
+                ABS_RNG.random() < 0.2)
     return ('ref', s, key[1], key[2], False, False)
 
 
@@ -50,6 +56,8 @@ def gen_model(rng, n_inputs=4, n_formulas=6, sheets=('Sheet1',),
               with_ranges=True, with_if=True, values=None, max_depth=None):
     """Inputs live in column A.. of each sheet (rows 1..), formulas in column
     C.. ; ranges are rectangles over the input block (column A:B)."""
+    global ABS_RNG
+    ABS_RNG = rng
     m = AcyclicModel()
     values = values or [0, 1, 2, 3, 4, 5, 0.5, 1.5, -1, -2, 10, 7]
     rows = {s: 0 for s in sheets}
